@@ -643,8 +643,9 @@ func c02k3CheckAll(w *c02k3World) {
 	// legitimately lost). Domain: these views are valid - every update in
 	// them was evaluated successfully when the signature covering it was made.
 	oR := c02k3Eval(w.orig, lntypes.Remote, s.b[2], s.a[2])
+	vAssume(oR.err == nil)
 	oL := c02k3Eval(w.orig, lntypes.Local, s.b[2], s.a[1])
-	vAssume(oR.err == nil && oL.err == nil)
+	vAssume(oL.err == nil)
 
 	lc2, err := NewLightningChannel(nil, w.st2, nil)
 	vAssert(err == nil && lc2 != nil, "k3: the channel reloads without error")
@@ -721,53 +722,85 @@ func c02k3CheckAll(w *c02k3World) {
 
 var c02k3Digits = [...]string{"0", "1", "2", "3"}
 
-// c02k3Product: every shape with <= maxN entries per log (vChoice; invalid
-// combinations end at once).
-func c02k3Product(s *c02k3Scn, maxN int) {
-	s.pending = vChoice("pending", 2) == 1
-	s.initiator = vChoice("init", 2) == 1
-	names := [2]string{"l", "r"}
+// c02k3Decode: shape number idx of the generated table (gen_c02k3_shapes.py:
+// every shape with <= 2 updates per log that satisfies valid()).
+func c02k3Decode(s *c02k3Scn, idx int) {
+	row := c02k3ShapeTab[idx*16 : idx*16+16]
+	d := func(i int) int { return int(row[i] - '0') }
+	s.pending, s.initiator = d(0) == 1, d(1) == 1
 	for q := 0; q < 2; q++ {
-		n := vChoice("n"+names[q], maxN+1)
-		s.ents[q] = make([]c02k3Ent, n)
-		for i := 0; i < n; i++ {
-			e := &s.ents[q][i]
-			e.kind = vChoice(names[q]+"k"+c02k3Digits[i], c02NumK)
-			e.zone = vChoice(names[q]+"z"+c02k3Digits[i], 4)
-			if c02k3IsRm(e.kind) {
-				e.parent = vChoice(names[q]+"p"+c02k3Digits[i], maxN)
-			}
+		s.ents[q] = make([]c02k3Ent, d(2+q))
+		for i := range s.ents[q] {
+			o := 4 + 6*q + 3*i
+			s.ents[q][i] = c02k3Ent{kind: d(o), zone: d(o + 1), parent: d(o + 2)}
 		}
 	}
 	if !s.valid() {
-		vAssume(false)
-	}
-	if !s.hasFee() && s.initiator != ((len(s.ents[0])+len(s.ents[1]))%2 == 1) {
-		// the opener flag only matters with fee updates: one value per shape
-		vAssume(false)
+		panic("c02k3: shape table row violates the representation invariant")
 	}
 }
 
-func c02k3Run(s *c02k3Scn) {
-	c02k3Fill(s)
-	w := c02k3Build(s)
+const c02k3Block = 128 // shapes per shard unit
+
+func c02k3Run(idx int) {
+	var s c02k3Scn
+	c02k3Decode(&s, idx)
+	c02k3Fill(&s)
+	w := c02k3Build(&s)
 	c02k3CheckAll(w)
 }
 
-// VerifC02RestoreAll: the whole reload, every shape with <= 2 updates per log.
-func VerifC02RestoreAll() {
-	c02k3Config()
-	var s c02k3Scn
-	c02k3Product(&s, 2)
-	c02k3Run(&s)
+// c02k3FeeOrder: the shapes of the CANDIDATE FINDING (NOTES.md): two fee
+// updates of ours, the older one on the remote tail and awaiting the peer's
+// signature, the newer one on the pending remote commitment. They are decided
+// by VerifC02RestoreFeeOrder alone so that one entry reports the finding.
+func c02k3FeeOrder(idx int) bool {
+	row := c02k3ShapeTab[idx*16 : idx*16+16]
+	return row[2] == '2' && row[4] == '4' && row[5] == '1' && row[7] == '4' && row[8] == '2'
 }
 
-// VerifC02Restore1: the whole reload, every shape with <= 1 update per log.
-func VerifC02Restore1() {
+// VerifC02RestoreAll: the whole reload, every shape with <= 2 updates per log
+// (6184 shapes in blocks of 128; shards pin "blk").
+func VerifC02RestoreAll() {
 	c02k3Config()
-	var s c02k3Scn
-	c02k3Product(&s, 1)
-	c02k3Run(&s)
+	idx := vChoice("blk", (c02k3NumShapes+c02k3Block-1)/c02k3Block)*c02k3Block + vChoice("off", c02k3Block)
+	if idx >= c02k3NumShapes || c02k3FeeOrder(idx) {
+		vAssume(false)
+	}
+	c02k3Run(idx)
+}
+
+// VerifC02Restore: quick slice: every shape with <= 1 update per log and every
+// 16th of the larger ones.
+const c02k3Stride = 16
+
+func VerifC02Restore() {
+	c02k3Config()
+	nBig := (c02k3NumShapes - c02k3NumSmall + c02k3Stride - 1) / c02k3Stride
+	nQ := c02k3NumSmall + nBig
+	q := vChoice("qblk", (nQ+c02k3Block-1)/c02k3Block)*c02k3Block + vChoice("off", c02k3Block)
+	if q >= nQ {
+		vAssume(false)
+	}
+	idx := q
+	if q >= c02k3NumSmall {
+		idx = c02k3NumSmall + (q-c02k3NumSmall)*c02k3Stride
+	}
+	if c02k3FeeOrder(idx) {
+		vAssume(false)
+	}
+	c02k3Run(idx)
+}
+
+// VerifC02RestoreFeeOrder: see c02k3FeeOrder.
+func VerifC02RestoreFeeOrder() {
+	c02k3Config()
+	idx := c02k3FeeOrderShapes[vChoice("feeShape", len(c02k3FeeOrderShapes))]
+	if !c02k3FeeOrder(idx) {
+		panic("c02k3: fee-order shape list out of date")
+	}
+	vReach("fee-order-shape")
+	c02k3Run(idx)
 }
 
 // ---------------------------------------------------------------------------
